@@ -81,11 +81,6 @@ def _generate_unquoted_parts(string, only_printable=False, unsafe=None, lossless
             m, only_printable=only_printable, unsafe=unsafe, lossless=lossless
         ).decode("utf-8", "ural.requote" if lossless else "replace")
 
-        # NOTE: those characters need several bytes in utf-8, hence they can
-        # only be recognized once decoded
-        if only_printable:
-            c = NON_PRINTABLE_RE.sub(_requote_match, c)
-
         yield c
 
         previous_match_end = end
@@ -97,15 +92,20 @@ def unquote(
     string, only_printable=False, unsafe=None, normalize_space=False, lossless=False
 ):
     if "%" not in string:
-        if normalize_space:
-            return string.replace(" ", "%20")
-        return string
-
-    q = "".join(
-        _generate_unquoted_parts(
-            string, only_printable=only_printable, unsafe=unsafe, lossless=lossless
+        q = string
+    else:
+        q = "".join(
+            _generate_unquoted_parts(
+                string, only_printable=only_printable, unsafe=unsafe, lossless=lossless
+            )
         )
-    )
+
+    # NOTE: those characters need several bytes in utf-8, hence they can only
+    # be recognized once decoded. The ones that were already there unescaped are
+    # escaped likewise (as a raw space is), else "a\xa0" and "a%C2%A0" would not
+    # end up the same, and the former would be eaten by a later `strip`
+    if only_printable:
+        q = NON_PRINTABLE_RE.sub(_requote_match, q)
 
     if normalize_space:
         q = q.replace(" ", "%20")
